@@ -243,6 +243,30 @@ func (w *World) Yield(tag string) bool {
 	return w.Sched.Yield(tag)
 }
 
+// SelectChoose owns the choice among the ready cases of a select statement
+// in relic code: the caller re-enters the schedule (it may have been woken by
+// a timer), readiness is evaluated again while nothing else runs, and the
+// tape decides.
+func (w *World) SelectChoose(site string, ready func() []int) int {
+	if w.FS.Sched == nil {
+		return -1
+	}
+	w.mu.Lock()
+	free := w.free
+	w.mu.Unlock()
+	if free || !w.Sched.Yield("select") {
+		return -1
+	}
+	// the caller has just been released by the scheduler: every other goroutine
+	// is blocked, so what is ready now is a function of the history alone
+	r := ready()
+	if len(r) < 2 {
+		return -1
+	}
+	w.R.Probe("select-with-several-ready-cases")
+	return r[w.T.Choose(len(r), fmt.Sprintf("select%v", r))]
+}
+
 // LoopTick is the deterministic livelock detector: more than SpinLimit
 // iterations of one loop site at one virtual instant means the loop neither
 // blocks nor lets time pass.  The goroutine is then parked for good so the run
